@@ -27,6 +27,11 @@ TOL = 0.5
 VARIANTS = {'conv': 4, 'moved': 6, 'nanw': 5, 'nans': 3, 'exc': 2}
 
 
+def _real(x):
+    """The value as a Python float; the series may be complex (a model built with dtype=complex), the values are real."""
+    return float(np.real(x))
+
+
 class Boom(Exception):
     pass
 
@@ -77,14 +82,20 @@ class ScriptedBase:
         self.__dict__['_sc_log'].append(('pre', self._pos(t), kw.get('iteration')))
         if self.__dict__.get('_sc_hooks_write'):
             self._C[t] += 1000.0  # a pre-solution calculation on a non-check endogenous variable
-        if self.__dict__['_sc_pre_exc']:
+        if self.__dict__['_sc_pre_exc'] == 'nan-write':
+            self._A[t] = float('nan')  # e.g. an observed series with a gap is loaded into a check variable: silently, no warning
+        elif self.__dict__['_sc_pre_exc'] == 'warn':
+            warnings.warn('pre-solution hook: series has missing values', UserWarning)  # a warning, not an exception: an error only under errors='raise' + catch_first_error
+        elif self.__dict__['_sc_pre_exc']:
             raise _hook_exception(self.__dict__['_sc_pre_exc'], 'pre')
 
     def solve_t_after(self, t, **kw):
         self.__dict__['_sc_log'].append(('post', self._pos(t), kw.get('iteration')))
         if self.__dict__.get('_sc_hooks_write'):
             self._C[t] += 5000.0  # a post-solution calculation
-        if self.__dict__['_sc_post_exc']:
+        if self.__dict__['_sc_post_exc'] == 'warn':
+            warnings.warn('post-solution hook: memo item divides by zero', RuntimeWarning)
+        elif self.__dict__['_sc_post_exc']:
             raise _hook_exception(self.__dict__['_sc_post_exc'], 'post')
 
     def _evaluate(self, t, **kw):
@@ -94,7 +105,7 @@ class ScriptedBase:
         script = d['_sc_scripts'].get(p, [])
         o, v = script[n] if n < len(script) else d['_sc_default']
         d['_sc_n'][p] = n + 1
-        d['_sc_log'].append(('eval', p, kw.get('iteration'), (float(self._A[t]), float(self._B[t]), float(self._C[t]), float(self._X[t]))))
+        d['_sc_log'].append(('eval', p, kw.get('iteration'), (_real(self._A[t]), _real(self._B[t]), _real(self._C[t]), _real(self._X[t]))))
         self._C[t] = (self._C[t] if np.isfinite(self._C[t]) else 0.0) + 100.0
         nonfinite = not (np.isfinite(self._A[t]) and np.isfinite(self._B[t]))
         if o in ('conv', 'moved') and nonfinite:
@@ -151,7 +162,9 @@ class ScriptedBase:
                 warnings.warn('guarded helper: series is empty', _HelperWarning)
                 self._B[t] = float('inf')
         elif o == 'nans':
-            if v == 0:
+            if v == 3:
+                pass  # the pass leaves in place the NaN that the pre-solution hook has put into A (used with pre_exc='nan-write' only)
+            elif v == 0:
                 self._B[t] = float('nan')
             elif v == 1:
                 self._A[t] = float('inf')
